@@ -1,5 +1,6 @@
 (* Proofs/PLU.v — LU with partial pivoting (Model/LU.v, R instance). *)
 From Coq Require Import ZArith List Arith Bool Reals Lra Lia.
+From Coq Require Import Floats.
 From SV Require Import Base.Num Base.Outcome Base.Mat Model.Subst Model.LU Proofs.LU.
 Import ListNotations.
 Local Open Scope R_scope.
@@ -12,6 +13,13 @@ Proof.
   unfold neps. change 52%Z with (Z.of_nat 52). rewrite npowi_R_nat.
   unfold ntwo. cbn [ndiv n1 nofZ RNum]. unfold Rdiv. ring.
 Qed.
+
+(* the same term in the float instance is exactly f64::EPSILON = 2^-52 *)
+Lemma neps_float : PrimFloat.eqb (@neps PrimFloat.float FNum) 0x1p-52%float = true.
+Proof. vm_compute. reflexivity. Qed.
+Lemma neps_float_bits :
+  Prim2SF (@neps PrimFloat.float FNum) = S754_finite false 4503599627370496 (-104).
+Proof. vm_compute. reflexivity. Qed.
 
 Lemma neps_pos : 0 < @neps R RNum.
 Proof. rewrite neps_R. apply Rinv_0_lt_compat. apply pow_lt. lra. Qed.
@@ -457,4 +465,75 @@ Proof.
   destruct (plu_outcome n A) as [E|[L [U [P E]]]]; [exact E|exfalso].
   apply Hw0. apply (no_left_null n A); [|exact Hnull|exact Hi0].
   apply (plu_solvable n A L U P E).
+Qed.
+
+(* ---- a concrete successful run with a row interchange (non-vacuity) ------------- *)
+Lemma neps_le_1 : @neps R RNum <= 1.
+Proof.
+  rewrite neps_R. rewrite <- Rinv_1. apply Rinv_le_contravar; [lra|]. apply pow_R1_Rle. lra.
+Qed.
+
+Lemma plu_step_eval n i (m p : mat R) q :
+  fst (plu_pivot_search n i m) = q -> neps <= Rabs (m (tau i q i) i) ->
+  plu_step n i (Ok (m, p)) =
+  Ok (retab n n (plu_eliminate n i (if (q =? i)%nat then m else mswap_rows m q i)),
+      retab n n (if (q =? i)%nat then p else mswap_rows p q i)).
+Proof.
+  intros Hq Hc. cbn [plu_step]. rewrite Hq. cbn [nltb nabs RNum]. rewrite swap_tau.
+  replace (Rltb (Rabs (m (tau i q i) i)) neps) with false by (symmetry; apply Rltb_false; exact Hc).
+  reflexivity.
+Qed.
+
+Lemma ex_plu_ok : exists L U P, plu 2 2 ex_swap = Ok (L, U, P).
+Proof.
+  assert (E00 : ex_swap 0%nat 0%nat = 0) by reflexivity.
+  assert (E01 : ex_swap 0%nat 1%nat = 1) by reflexivity.
+  assert (E10 : ex_swap 1%nat 0%nat = 1) by reflexivity.
+  assert (E11 : ex_swap 1%nat 1%nat = 0) by reflexivity.
+  unfold plu. cbn [Nat.eqb negb for_range].
+  rewrite (plu_step_eval 2 0 ex_swap midentity 1).
+  - cbn [Nat.eqb].
+    set (m1 := mswap_rows ex_swap 1 0).
+    set (m' := retab 2 2 (plu_eliminate 2 0 m1)).
+    rewrite (plu_step_eval 2 1 m' _ 1).
+    + eexists _, _, _. reflexivity.
+    + reflexivity.
+    + rewrite tau_i. unfold m'. rewrite retab_spec by lia. rewrite plu_eliminate_len.
+      destruct (eliminate_len_spec 2 0 (2 - 1) m1) as [_ [E2 _]]; [lia|].
+      rewrite E2 by (cbn; lia).
+      replace (m1 1%nat 1%nat) with 1 by (unfold m1, mswap_rows; cbn [Nat.eqb]; rewrite E01; reflexivity).
+      replace (m1 1%nat 0%nat) with 0 by (unfold m1, mswap_rows; cbn [Nat.eqb]; rewrite E00; reflexivity).
+      replace (m1 0%nat 0%nat) with 1 by (unfold m1, mswap_rows; cbn [Nat.eqb]; rewrite E10; reflexivity).
+      replace (m1 0%nat 1%nat) with 0 by (unfold m1, mswap_rows; cbn [Nat.eqb]; rewrite E11; reflexivity).
+      replace (1 - 0 / 1 * 0) with 1 by field. rewrite Rabs_R1. apply neps_le_1.
+  - unfold plu_pivot_search. cbn [Nat.sub for_range snd]. rewrite E00, E10.
+    unfold ngtb. cbn [nltb nabs RNum]. rewrite Rabs_R0, Rabs_R1.
+    replace (Rltb 0 1) with true by (symmetry; apply Rltb_true; lra). reflexivity.
+  - rewrite tau_i, E10, Rabs_R1. apply neps_le_1.
+Qed.
+
+(* a matrix that plu accepts has a trivial kernel; hence a right null vector (zero column,
+   repeated column, ...) is refused as well *)
+Lemma plu_kernel n (A L U P : mat R) (z : vec R) :
+  plu n n A = Ok (L, U, P) ->
+  (forall r, (r < n)%nat -> msum 0 n (fun k => A r k * z k) = 0) ->
+  forall k, (k < n)%nat -> z k = 0.
+Proof.
+  intros H Hz.
+  destruct (c09_plu_shape n A L U P H) as [HL [HU _]].
+  destruct (plu_reconstruct_perm n A L U P H) as [s [[s' Hs] [_ Hrec]]].
+  assert (Hd : forall i, (i < n)%nat -> U i i <> 0) by (intros i Hi; apply (c09_plu_pivots n A L U P H i Hi)).
+  apply (tri_kernel n L U z HL HU Hd).
+  intros i Hi. rewrite <- (Hz (s i)) by (apply (Hs i Hi)).
+  apply msum_ext. intros c Hc.
+  change (msum 0 n (fun t => L i t * U t c)) with (mprod n L U i c).
+  rewrite Hrec by lia. reflexivity.
+Qed.
+
+Lemma c09_plu_singular_right : forall (n : nat) (A : mat R) (x : nat -> R),
+  right_null n A x -> plu n n A = Err ESingularMatrix.
+Proof.
+  intros n A x [[j0 [Hj0 Hx0]] Hnull].
+  destruct (plu_outcome n A) as [E|[L [U [P E]]]]; [exact E|exfalso].
+  apply Hx0. exact (plu_kernel n A L U P x E Hnull j0 Hj0).
 Qed.
